@@ -264,6 +264,19 @@ def canon(o):
     return json.dumps(o, sort_keys=True, ensure_ascii=True, separators=(",", ":"))
 
 
+def comparable(o):
+    """form in which model and implementation observations are compared: WHICH exception a failing call raises
+    (AssertionError vs. anything else) is not part of any property — they say "raises" / "fails" / "is refused" — so a
+    harmless change of an `assert` into a `raise ValueError` must not read as a disagreement"""
+    if isinstance(o, dict):
+        if "err" in o:
+            return {"err": "raised"}
+        return {k: comparable(v) for k, v in o.items()}
+    if isinstance(o, list):
+        return [comparable(v) for v in o]
+    return o
+
+
 def digest(o):
     return hashlib.sha256(canon(o).encode()).hexdigest()[:16]
 
